@@ -1086,7 +1086,22 @@ func c12ExecMuxStress(in *c12In) *c12Obs {
 	ctx := newC12Ctx(false)
 	r := NewRng(in.Seed)
 	bstream.SetVerifSourceReconnectDelay(time.Duration(50+r.Intn(200)) * time.Microsecond)
-	bstream.SetVerifHook(nil)
+	// "late" is judged at the wrapper's schedule point under handlerLock (hook 25, just before its IsTerminating test), not
+	// at the first instruction of the user handler: between the wrapper's test and that instruction another goroutine's
+	// Shutdown can complete and Run can return (a free-running case of seed 6 hit that window once: a false alarm).
+	// handlerLock is held from the hook until the handler call ends, so one variable is enough.
+	var lateAtLock int32
+	bstream.SetVerifHook(func(name string) {
+		if name == "mux.handler_locked" {
+			late := int32(0)
+			if atomic.LoadInt32(&ctx.runRet) == 1 && ctx.term != nil && ctx.term() {
+				late = 1
+			}
+			atomic.StoreInt32(&lateAtLock, late)
+		}
+	})
+	defer bstream.SetVerifHook(nil)
+	ctx.lateIf = func() bool { return atomic.LoadInt32(&lateAtLock) == 1 }
 	var mx *bstream.MultiplexedSource
 	inCalls := int32(0)
 	work := func() {
